@@ -271,6 +271,9 @@ def run_cases(ctx, cases, n_mut=2):
         n = len(x["nodes"])
         ctx.count("nodes<=10" if n <= 10 else "nodes<=30" if n <= 30 else "nodes<=100" if n <= 100 else "nodes>100")
         ctx.count("graphs.with_clones" if x["clones"] else "graphs.without_clones")
+        pairs = [(c, p) for (c, p, o) in x["setup"]]
+        ctx.count("graphs.with_several_objects_on_one_dependency" if len(pairs) != len(set(pairs))
+                  else "graphs.one_object_per_dependency")
         ctx.count("graphs.multi_variant" if any(v.strip() == "" or "," in v or v.startswith("no")
                                                 for v in case["vm_strs"].values()) else "graphs.single_variant")
         ctx.extra["parse_seconds"] = round(ctx.extra.get("parse_seconds", 0) + time.time() - t0, 1)
